@@ -62,6 +62,15 @@ check("C06", "other",
       "nothing is dropped, hidden or truncated. Titles, YAML, expectation parsing and test-case field contents are not claimed.",
       E2_NOTE, E2_TECH, "E2+E1", "DESIGN.md §3 C06")
 
+check("C04", "other",
+      "Per kind, on the MIR of the rule implementations: equal / no-eol exact (expressions <= 3/4 bytes, lines <= 4/5 bytes); "
+      "escaped: matches ⇔ trimmed line == stored bytes, and make() stores the documented decoding (\\t, \\xHH, \\\\, text); "
+      "regex: scrut's own part — rewrites + anchoring wrapper — with the engine replaced by a small regex semantics on a "
+      "symbolic line: matches ⇔ whole line in L(e) for all expressions over {a,b,|} up to length 3/4 plus curated ones; "
+      "cram glob: glob→regex translation ⇔ glob semantics. The wildmatch engine (kind `glob`) and the regex engine are not encoded.",
+      E2_NOTE + " Additionally trusts lib/miniregex.py (validated against the regex crate on concrete samples each run).",
+      E2_TECH, "E2", "DESIGN.md §3 C04")
+
 NA_LIST = [
     ("C07", "Cram parser: every clause is about string contents inside one regex-calling function; out of reach of Kani (heap/regex) and of control-flow-only MIR execution."),
     ("C12", "Shell-state carry-over is implemented by a bash script; no encoding of bash semantics is available here."),
